@@ -1103,6 +1103,13 @@ def c05(tier, seed):
     lines = fixed + _sample(allc, 500 if tier == 'quick' else 4000, seed)
     out = [{'line': l + '\necho alive' if False else l, 'timeout': 5, 'area': 'no-crash:line'} for l in lines]
     out.append({'line': "X='$X'; echo $X", 'timeout': 3, 'area': 'no-crash:self-referential-value'})
+    # (repair a105e61) text nested thousands of levels deep: the passes that call themselves once per level must not be handed it
+    for name, l in (('braces', 'echo ' + '{' * 5000 + 'a,b' + '}' * 5000), ('braces-unclosed', 'echo ' + '{' * 20000 + 'a,b'), ('braces-at-the-limit', 'echo ' + '{' * 100 + 'a,b' + '}' * 100),
+                    ('substitutions', 'echo ' + '$(' * 5000 + 'echo a' + ')' * 5000), ('substitutions-unclosed', 'echo ' + '$(' * 20000 + 'echo a)'), ('parentheses', '(' * 20000 + '1 + 1' + ')' * 20000),
+                    ('parentheses-unclosed', '(' * 50000 + '1 + 1'), ('parentheses-at-the-limit', '(' * 100 + '1 + 1' + ')' * 100), ('brace-ranges', 'echo ' + '{1..2}' * 2000),
+                    ('quotes', 'echo ' + '"\'' * 3000), ('backquotes', 'echo ' + '`' * 5001)):
+        out.append({'script': l + '\necho alive\n', 'expect_stdout_last_line': 'alive', 'timeout': 20, 'area': 'no-crash:deep-nesting:' + name})
+    out.append({'script': '(' * 100 + '1 + 1' + ')' * 100 + '\n', 'expect_stdout': '2\n', 'timeout': 10, 'area': 'no-crash:deep-nesting:parentheses-at-the-limit'})
     # the shell must remain able to run the next command: a script whose lines are odd, followed by a marker
     for l in [x for x in fixed if not x.startswith(('exit', 'exec'))][:30]:
         out.append({'script': l + '\necho alive\n', 'expect_stdout_last_line': 'alive', 'timeout': 5, 'area': 'no-crash:next-command-runs'})
